@@ -368,6 +368,91 @@ def seq_correspondence(run, harness, mode, label, args, corpus_files=(), overlay
     return all_ok
 
 
+def twin_differential(run, harness, mode, label, args_a, args_b, canon=lambda l: l):
+    """run the same generated call sequences on both twins of the real code and compare their outputs directly"""
+    outs = []
+    for tag, args in (("a", args_a), ("b", args_b)):
+        d = os.path.join(run.work, label + "_" + tag)
+        os.makedirs(d, exist_ok=True)
+        rc, o, e = sh([harness, mode, "out=" + d] + args, timeout=3000)
+        if rc != 0:
+            path = write_replay(run, label + "_crash", {"kind": "harness-crash", "cmd": [mode] + args, "stderr": e[-4000:]})
+            run.violations.append(("%s: harness crashed" % label, path, True, e[-300:]))
+            return False
+        outs.append((read_lines(os.path.join(d, "ops.txt")), read_lines(os.path.join(d, "impl.txt"))))
+    (ops_a, im_a), (ops_b, im_b) = outs
+    run.cov["evaluations"] += len(ops_a)
+    run.cov["runs"].append({"label": label, "ops": len(ops_a)})
+    for i, (x, y) in enumerate(zip(im_a, im_b)):
+        if canon(x) != canon(y):
+            lo = i
+            while lo > 0 and not ops_a[lo].startswith("new"):
+                lo -= 1
+            path = write_replay(run, label + "_twins", {
+                "kind": "twin-differential", "what": "the twins answer the same call sequence differently",
+                "ops_twin_a": ops_a[lo:i + 1], "ops_twin_b": ops_b[lo:i + 1], "impl_twin_a": im_a[lo:i + 1], "impl_twin_b": im_b[lo:i + 1]})
+            run.violations.append(("%s:twins:%s" % (label, ops_a[i].split()[0]), path, True,
+                                   "twins differ at %r: %r vs %r" % (ops_a[i], x, y)))
+            return False
+    return True
+
+
+# --------------------------------------------------------------------------------------------------
+# native harness modes: key-type catalogue (C10), race detector (C14), janitor (C15)
+
+def build_keys_harness(run):
+    out = os.path.join(run.work, "keysharness")
+    with Lock("harness_clock"):
+        ov = os.path.join(BUILD, "ov_clock")
+        rc, o, e = sh([os.path.join(BUILD, "rewrite"), REPO, ov, "clock", os.path.join(VERIF, "harness")])
+        if rc != 0:
+            return None, "rewrite failed: " + e
+        rc, o, e = sh(["go", "build", "-overlay", os.path.join(ov, "overlay.json"), "-o", out, "."],
+                      cwd=os.path.join(VERIF, "harness", "keysmod"), timeout=900)
+    if rc != 0:
+        return None, "go build failed:\n" + e[-3000:]
+    return out, ""
+
+
+def build_race_harness(run):
+    out = os.path.join(run.work, "vharness_race")
+    with Lock("harness_clock"):
+        ov = os.path.join(BUILD, "ov_clock")
+        rc, o, e = sh([os.path.join(BUILD, "rewrite"), REPO, ov, "clock", os.path.join(VERIF, "harness")])
+        if rc != 0:
+            return None, "rewrite failed: " + e
+        env = dict(ENV, CGO_ENABLED="1")
+        rc, o, e = sh(["go", "build", "-race", "-overlay", os.path.join(ov, "overlay.json"), "-o", out, "./internal/vharness"],
+                      cwd=REPO, timeout=900, env=env)
+    if rc != 0:
+        return None, "go build -race failed:\n" + e[-3000:]
+    return out, ""
+
+
+def native_run(run, label, cmd, bad_markers, env=None, timeout=1800):
+    """run a native harness; any line containing one of bad_markers (or a non-zero exit) is a violation"""
+    try:
+        rc, o, e = sh(cmd, timeout=timeout, env=env)
+    except subprocess.TimeoutExpired:
+        rc, o, e = 124, "", "TIMEOUT: the native harness did not finish (hang)"
+    txt = o + "\n" + e
+    lines = [l for l in txt.splitlines() if any(m in l for m in bad_markers)]
+    run.cov["evaluations"] += max(1, len([l for l in o.splitlines() if l.strip()]))
+    run.cov["runs"].append({"label": label, "exit": rc, "output_lines": len(o.splitlines())})
+    if len(run.cov["samples"]) < 4:
+        run.cov["samples"].append({"run": label, "output_tail": o.splitlines()[-6:]})
+    if rc != 0 or lines:
+        first = lines[0] if lines else ("exit %d: %s" % (rc, (e.strip().splitlines() or ["?"])[-1]))
+        tag = re.sub(r"[^A-Za-z0-9_-]+", "_", first.split(":")[0])[:40]
+        path = write_replay(run, "%s_%s" % (label, tag), {
+            "kind": "native", "what": "the real code, run natively by the harness, violates the property",
+            "cmd": cmd, "problems": lines[:20], "output_tail": txt[-6000:],
+            "replay_cmd": "./check %s --replay <this file>" % run.pid})
+        run.violations.append(("%s:%s" % (label, first[:80]), path, True, "%s: %s" % (label, first[:300])))
+        return False
+    return True
+
+
 # --------------------------------------------------------------------------------------------------
 # controlled-scheduler exploration (real code under the cooperative scheduler; linearizability decided by
 # the Lean driver against Spec; other monitors in the Go harness)
